@@ -366,6 +366,25 @@ def _idle_shape(ctx, it):
                             raise AnalysisError(f"IdleTimeReward.update: previous-operation lookup `{st}` not recognised")
                 else:
                     raise AnalysisError(f"IdleTimeReward.update: previous operation `{st}` not recognised")
+            elif (
+                isinstance(prev, ast.Call) and isinstance(prev.func, ast.Name) and prev.func.id in ("max", "min") and prev.args
+                and isinstance(prev.args[0], (ast.GeneratorExp, ast.ListComp)) and len(prev.args[0].generators) == 1
+            ):
+                # an aggregate over the machine's list: the list must exclude
+                # the operation that was just appended (it is the last element)
+                g = prev.args[0].generators[0]
+                it = ctx.norm.xtext(upd, g.iter).replace(" ", "")
+                if it.endswith(f"schedule.schedule[{sop}.machine_id]"):
+                    ok = False
+                    chk.violation(
+                        "R13.d", upd, prev,
+                        f"the end of the previous operation is taken as `{ast.unparse(prev)[:80]}` over the machine's live list, "
+                        "which already contains the operation just scheduled: a zero-duration operation (end == start) is its "
+                        "own predecessor and the idle gap in front of it is rewarded as 0",
+                        loc=upd.loc(app[0]),
+                    )
+                else:
+                    raise AnalysisError(f"IdleTimeReward.update: idle reference `{pt}` not recognised")
             else:
                 # a release-time table kept by the reward itself
                 if isinstance(prev, ast.Subscript) and ast.unparse(prev.value).startswith("self."):
